@@ -338,6 +338,18 @@ findTypeLoop:
 			case *Gpos1_1, *Gpos1_2, *Gpos2_1, *Gpos2_2, *Gpos3_1, *Gpos4_1, *Gpos5_1, *Gpos6_1:
 				extLookupType = gposExtensionLookupType
 				break findTypeLoop
+			case *SeqContext1, *SeqContext2, *SeqContext3,
+				*ChainedSeqContext1, *ChainedSeqContext2, *ChainedSeqContext3:
+				// The contextual subtables are shared between GSUB (lookup
+				// types 5 and 6) and GPOS (lookup types 7 and 8).
+				switch l.Meta.LookupType {
+				case 5, 6:
+					extLookupType = gsubExtensionLookupType
+					break findTypeLoop
+				case 7, 8:
+					extLookupType = gposExtensionLookupType
+					break findTypeLoop
+				}
 			}
 		}
 	}
@@ -345,6 +357,15 @@ findTypeLoop:
 	lookupCount := len(ll)
 	if lookupCount >= 1<<14 {
 		panic("too many lookup tables")
+	}
+
+	numSubTables := 0
+	for _, l := range ll {
+		numSubTables += len(l.Subtables)
+	}
+	if lookupCount+numSubTables > 6000 {
+		// readLookupList rejects such tables
+		panic("too many lookup (sub-)tables")
 	}
 
 	// Make a list of all chunks which need to be written.
@@ -419,6 +440,9 @@ findTypeLoop:
 			lookupType := li.Meta.LookupType
 			if _, replaced := chunkPos[chunkExtReplace|tCode]; replaced {
 				// fix the lookup type in case of replaced subtables
+				if extLookupType == 0 {
+					panic("cannot determine the extension lookup type")
+				}
 				lookupType = extLookupType
 			}
 			buf = append(buf,
@@ -434,6 +458,9 @@ findTypeLoop:
 					subtablePos = chunkPos[chunkSubtable|tCode|sCode]
 				}
 				subtableOffset := subtablePos - base
+				if subtableOffset > 0xFFFF {
+					panic("lookup table too large for 16-bit subtable offsets")
+				}
 				buf = append(buf, byte(subtableOffset>>8), byte(subtableOffset))
 			}
 			if li.Meta.LookupFlags&UseMarkFilteringSet != 0 {
